@@ -287,6 +287,9 @@ fn cmd_run(args: &[String]) -> i32 {
         if case.records.len() >= 1000 {
             *probes.entry("records>=1000".to_string()).or_insert(0) += 1;
         }
+        if case.records.iter().map(|r| r.seq.len()).sum::<usize>() >= (1 << 20) {
+            *probes.entry("input>=1MiB".to_string()).or_insert(0) += 1;
+        }
         if case.records.len() >= 10000 {
             *probes.entry("records>=10000".to_string()).or_insert(0) += 1;
         }
